@@ -248,7 +248,9 @@ Definition reads (r : rule) : list str :=
   | RUnique => K_shape :: base_names
   end.
 
-(** ** Domain of the equivalence theorem (see props/c10.py ASSUMPTIONS for why) *)
+(** ** Domain of the equivalence theorem (see props/c10.py ASSUMPTIONS for why): the shape, when it
+    is a list, has non-zero int entries, and the entries of the classifications that are valid for
+    it are dicts.  (Entries of classifications that are NOT valid for the shape are never read.) *)
 Definition shape_entry_ok (v : jv) : bool :=
   match v with JInt z => negb (z =? 0) | _ => false end.
 
@@ -267,10 +269,10 @@ Definition wf_domain (c : jv) : bool :=
   match c with
   | JObj o =>
       match jassoc K_shape o with
-      | Some (JArr l) => forallb shape_entry_ok l
+      | Some (JArr l) =>
+          forallb shape_entry_ok l && forallb (class_entry_ok o) (valid_classes_spec l)
       | Some (JStr _) | Some (JObj _) => false
       | _ => true
       end
-      && forallb (class_entry_ok o) classifications
   | _ => true
   end.
